@@ -280,8 +280,98 @@ pub fn phase_subscription(e: &E2e, addrs: &[u8]) -> CheckResult {
     Ok(())
 }
 
+
+/// C08 / C04: one uplink is black-holed on the real loop (the receiver sees its datagrams but stops answering),
+/// long enough for the timeout and at least one retry, then the path comes back.
+/// `focus` 8 asserts the C08 clauses, 4 only the C04 clause (no stream data on a link that is re-registering).
+pub fn phase_recovery(e: &E2e, addrs: &[u8], timeout_ms: u64, focus: u8) -> CheckResult {
+    phase_uplink(e, 1000, 200, 300)?;
+    let victim = *addrs.last().unwrap();
+    // mute right after the victim was heard from (keepalive echoed), so that its silence starts now
+    let t_w = e.ms();
+    let heard = e.wait_until(Duration::from_secs(4), |lg| lg.keepalives.iter().any(|k| k.0 == victim && k.1 >= t_w));
+    vensure!(heard, "e2e-harness", "no keepalive from link {victim} within 4 s before the outage (covered by the keepalive phase)");
+    std::thread::sleep(Duration::from_millis(30));
+    let (t_mute, n_mute) = {
+        let lg = e.log.lock().unwrap();
+        e.policy.lock().unwrap().muted.insert(victim);
+        (e.ms(), lg.order.last().map_or(0, |o| o.0))
+    };
+    let mute_for = timeout_ms + 7500;
+    let before = e.log.lock().unwrap().data.len();
+    let mut sent = Vec::new();
+    let mut seq = 20_000u32;
+    while e.ms() < t_mute + mute_for {
+        for _ in 0..10 {
+            let d = client_datagram(seq, 200);
+            e.client_send(&d);
+            sent.push(d);
+            seq += 1;
+        }
+        std::thread::sleep(Duration::from_millis(50));
+    }
+    let _ = e.wait_until(Duration::from_secs(6), |lg| {
+        let got: std::collections::BTreeSet<&Vec<u8>> = lg.data[before..].iter().map(|d| &d.1).collect();
+        sent.iter().all(|s| got.contains(s))
+    });
+    let t_unmute = {
+        let mut pol = e.policy.lock().unwrap();
+        pol.muted.remove(&victim);
+        e.ms()
+    };
+    {
+        let lg = e.log.lock().unwrap();
+        let got: std::collections::BTreeSet<&Vec<u8>> = lg.data[before..].iter().map(|d| &d.1).collect();
+        let missing = sent.iter().filter(|s| !got.contains(*s)).count();
+        let attempts: Vec<&(u64, u8, u16, u8, u64)> = lg.order.iter().filter(|o| o.0 > n_mute && o.1 == victim && (o.3 == 2 || o.3 == 3)).collect();
+        if std::env::var_os("VERIF_E2E_TRACE").is_some() {
+            eprintln!("recovery: victim {victim} timeout {timeout_ms} mute@{t_mute} unmute@{t_unmute} sent {} missing {missing} attempts {:?} victim-data-during-mute {}", sent.len(), attempts.iter().map(|a| (a.4.saturating_sub(t_mute), a.2, a.3)).collect::<Vec<_>>(), lg.data[before..].iter().filter(|d| d.0 == victim).count());
+        }
+        if focus == 8 {
+            // survivors keep carrying the stream: at most one batch may die with the link that is torn down
+            vensure!(missing <= 32, "e2e-survivor-dropped-packet", "real event loop: {missing} of {} client datagrams sent while one of {} uplinks was black-holed never left the sender", sent.len(), addrs.len());
+            vensure!(!attempts.is_empty(), "e2e-failure-never-detected", "real event loop: link {victim} was silent for {mute_for} ms (timeout {timeout_ms} ms) and no re-registration attempt was seen");
+            let first = attempts[0].4;
+            vensure!(first + 400 >= t_mute + timeout_ms, "e2e-early-teardown", "real event loop: link {victim} re-registered {} ms after it was last heard, timeout {timeout_ms} ms", first.saturating_sub(t_mute));
+            for w in attempts.windows(2) {
+                vensure!(w[1].4 + 300 >= w[0].4 + 5000, "e2e-retry-too-soon", "real event loop: link {victim} reconnect attempts {} ms apart (< 5000)", w[1].4 - w[0].4);
+            }
+            // healthy links are never torn down
+            for o in lg.order.iter().filter(|o| o.0 > n_mute && o.1 != victim && (o.3 == 2 || o.3 == 3)) {
+                return viol("e2e-early-teardown", format!("real event loop: healthy link {} sent a registration frame {} ms into another link's outage", o.1, o.4.saturating_sub(t_mute)));
+            }
+        }
+    }
+    // the path delivers again: connected within 30 s
+    let back = e.wait_until(Duration::from_secs(33), |lg| lg.order.iter().any(|o| o.1 == victim && o.3 == 4 && o.4 >= t_unmute));
+    if focus == 8 {
+        vensure!(back, "e2e-not-recovered", "real event loop: link {victim} did not complete a registration within 33 s after its path came back");
+        let t3 = e.ms();
+        let alive = e.wait_until(Duration::from_millis(4000), |lg| lg.keepalives.iter().any(|k| k.0 == victim && k.1 >= t3) || lg.data.iter().any(|d| d.0 == victim && d.2 >= t3));
+        vensure!(alive, "e2e-not-recovered", "real event loop: link {victim} was re-registered by the receiver but sent nothing for 4 s afterwards");
+    }
+    // C04: from its first re-registration frame until the receiver's REG3, the link carries no stream datagram
+    if focus == 4 {
+        let lg = e.log.lock().unwrap();
+        let mut registering = false;
+        for o in lg.order.iter().filter(|o| o.0 > n_mute && o.1 == victim) {
+            match o.3 {
+                2 | 3 => registering = true,
+                4 => registering = false,
+                0 if registering => {
+                    return viol("e2e-stream-data-on-registering-link", format!("real event loop: link {victim} put a stream datagram on the wire {} ms after its re-registration frame and before the receiver's REG3", o.4));
+                }
+                _ => {}
+            }
+        }
+    }
+    phase_uplink(e, 60_000, 300, 300)
+}
+
 #[derive(Clone, Copy, PartialEq, Eq, Debug)]
 pub enum Phase {
+    Recovery,
+    RecoveryEligibility,
     Uplink,
     Relay,
     Keepalive,
@@ -341,7 +431,9 @@ pub fn run(ctx: &Ctx, phase: Phase, scenarios: usize) {
         // one attempt of the scenario; None = could not start (inconclusive)
         let attempt = |notes: &mut Vec<String>| -> Option<CheckResult> {
             let probe = LagProbe::start();
-            let cfg = DynamicConfig::from_cli(if classic { srtla_core::SchedulingMode::Classic } else { srtla_core::SchedulingMode::Enhanced }, (z >> 17) & 1 == 1, (z >> 18) & 1 == 1, 32, 3000, 5000);
+            let recovery_timeout = 2000 + 1000 * ((z >> 24) % 3);
+            let timeout = if matches!(phase, Phase::Recovery | Phase::RecoveryEligibility) { recovery_timeout } else { 5000 };
+            let cfg = DynamicConfig::from_cli(if classic { srtla_core::SchedulingMode::Classic } else { srtla_core::SchedulingMode::Enhanced }, (z >> 17) & 1 == 1, (z >> 18) & 1 == 1, 32, 3000, timeout);
             let Some(e) = E2e::start(&addrs, cfg, Duration::from_secs(20)) else {
                 notes.push(format!("scenario {k}: start-up did not complete within 20 s (inconclusive, skipped; scheduling lag up to {} ms)", probe.finish()));
                 return None;
@@ -372,6 +464,8 @@ pub fn run(ctx: &Ctx, phase: Phase, scenarios: usize) {
                     phase_control(&e, &lines)
                 }
                 Phase::Subscription => phase_subscription(&e, &addrs),
+                Phase::Recovery => phase_recovery(&e, &addrs, recovery_timeout, 8),
+                Phase::RecoveryEligibility => phase_recovery(&e, &addrs, recovery_timeout, 4),
             };
             drop(e);
             let lag = probe.finish();
